@@ -6,6 +6,7 @@ import (
 	"os"
 	"os/exec"
 	"path/filepath"
+	"runtime"
 	"strings"
 	"sync"
 	"time"
@@ -22,8 +23,37 @@ var solvers = []solverSpec{
 	{"cvc5", func(f string, s int) []string { return []string{"cvc5", fmt.Sprintf("--tlimit=%d", s*1000), f} }},
 }
 
+// raceExtra: the same solver with other random seeds joins the race for the queries the first attempt did not decide:
+// the hard queries are the unstable ones (a solver's time on them varies by an order of magnitude with irrelevant
+// changes), and a small portfolio is the standard way to make the outcome repeatable.
+var raceExtra = []solverSpec{
+	{"z3-new#7", func(f string, s int) []string {
+		return []string{"z3-new", "smt.random_seed=7", "sat.random_seed=7", fmt.Sprintf("-T:%d", s), "-smt2", f}
+	}},
+	{"z3-new#23", func(f string, s int) []string {
+		return []string{"z3-new", "smt.random_seed=23", "sat.random_seed=23", fmt.Sprintf("-T:%d", s), "-smt2", f}
+	}},
+	{"z3#7", func(f string, s int) []string {
+		return []string{"z3", "smt.random_seed=7", "sat.random_seed=7", fmt.Sprintf("-T:%d", s), "-smt2", f}
+	}},
+}
+
 func runSolver(sp solverSpec, file string, sec int) (status string, out string, dur float64) {
-	ctx, cancel := context.WithTimeout(context.Background(), time.Duration(sec+5)*time.Second)
+	return runSolverCtx(context.Background(), sp, file, sec)
+}
+
+// solverSlots bounds the number of solver processes running at once to the number of cores, so that a solver's
+// (wall-clock) time limit measures its own work and not the load made by the other queries.
+var solverSlots = make(chan struct{}, runtime.NumCPU())
+
+func runSolverCtx(parent context.Context, sp solverSpec, file string, sec int) (status string, out string, dur float64) {
+	select {
+	case solverSlots <- struct{}{}:
+	case <-parent.Done():
+		return "cancelled", "", 0
+	}
+	defer func() { <-solverSlots }()
+	ctx, cancel := context.WithTimeout(parent, time.Duration(sec+5)*time.Second)
 	defer cancel()
 	args := sp.cmd(file, sec)
 	t0 := time.Now()
@@ -38,7 +68,9 @@ func runSolver(sp solverSpec, file string, sec int) (status string, out string, 
 	case "timeout":
 		status = "timeout"
 	default:
-		if ctx.Err() != nil {
+		if parent.Err() != nil {
+			status = "cancelled"
+		} else if ctx.Err() != nil {
 			status = "timeout"
 		} else if strings.Contains(out, "timeout") || strings.Contains(out, "interrupted") {
 			status = "timeout"
@@ -191,18 +223,33 @@ func solveOne(ob *Obligation, prelude string, gax []string, opts solveOpts) {
 				}
 			}
 		} else {
-			ch := make(chan res, len(solvers))
-			for _, sp := range solvers {
+			// race: once one solver has answered, the others get a short grace period (to agree or to disagree)
+			// and are then cancelled
+			rctx, rcancel := context.WithCancel(context.Background())
+			racers := append(append([]solverSpec{}, solvers...), raceExtra...)
+			ch := make(chan res, len(racers))
+			for _, sp := range racers {
 				go func(sp solverSpec) {
-					st, out, dur := runSolver(sp, file, opts.timeout)
+					st, out, dur := runSolverCtx(rctx, sp, file, opts.timeout)
 					ch <- res{sp.name, st, out, dur}
 				}(sp)
 			}
-			for range solvers {
+			for range racers {
 				r := <-ch
+				if r.st == "cancelled" {
+					ob.Raw[r.name] = fmt.Sprintf("cancelled (%.2fs) another solver had answered", r.dur)
+					continue
+				}
 				ob.Raw[r.name] = fmt.Sprintf("%s (%.2fs) %s", r.st, r.dur, trunc(strings.TrimSpace(r.out), 300))
 				if r.dur > ob.TimeS {
 					ob.TimeS = r.dur
+				}
+				if (r.st == "sat" || r.st == "unsat") && final == "" {
+					grace := 2 * time.Second
+					if opts.all {
+						grace = 8 * time.Second
+					}
+					time.AfterFunc(grace, rcancel)
 				}
 				if r.st == "sat" || r.st == "unsat" {
 					if final == "" {
@@ -213,6 +260,7 @@ func solveOne(ob *Obligation, prelude string, gax []string, opts solveOpts) {
 					}
 				}
 			}
+			rcancel()
 		}
 	}
 	if final == "" {
